@@ -62,8 +62,13 @@ impl MSelect {
         if !self.cols.is_empty() {
             s = s.columns(&self.cols);
         }
-        if let Some(c) = &self.cond {
-            s = s.with(em::lower(c));
+        match crate::model::split_and(&self.cond) {
+            Some((a, b)) => s = s.with(em::lower(a)).with(em::lower(b)),
+            None => {
+                if let Some(c) = &self.cond {
+                    s = s.with(em::lower(c));
+                }
+            }
         }
         s
     }
